@@ -328,3 +328,37 @@ def _describe_payload(B, o, depth):
         else:
             names.add(x[0])
     return "|".join(sorted(names))
+
+
+def string_match_table(F, B, adt_suffix):
+    """For a function that `match`es a string against literals and builds variants of one enum: {literal taken-as-equal: variant} plus
+    the set of results on the no-match path; also whether every comparison's subject went through to_lowercase()."""
+    from . import paths as P
+    table, nomatch, lowered = {}, set(), True
+    for path in P.enumerate_paths(B, allow_loops=True):
+        hit = None
+        for b, lab in path:
+            t = B.blocks[b]["term"]
+            if t["k"] != "switch":
+                continue
+            e, tr, fa = B.truth_edges(b)
+            if e[0] == "call" and q.ends(e[1], "eq") and len(e[2]) == 2:
+                lits = [a.get("val") for a in e[2] if a["k"] == "const" and isinstance(a.get("val"), str)]
+                subj = [a for a in e[2] if a["k"] != "const"]
+                if subj and not any(q.ends(v, "to_lowercase", "to_ascii_lowercase") for v in B.via(subj[0])):
+                    lowered = False
+                nxt = path[path.index((b, lab)) + 1][0] if path.index((b, lab)) + 1 < len(path) else None
+                if lits and nxt == tr[1]:
+                    hit = lits[0]
+        variant = None
+        for b, _ in path:
+            for s in B.blocks[b]["stmts"]:
+                if s["k"] == "assign" and s["rv"]["k"] == "agg" and str(s["rv"].get("adt", "")).endswith(adt_suffix):
+                    variant = s["rv"].get("variant")
+        res = variant or ("Err" if any(s["k"] == "assign" and s["rv"]["k"] == "agg" and s["rv"].get("variant") == "Err"
+                                       for b, _ in path for s in B.blocks[b]["stmts"]) else "?")
+        if hit is None:
+            nomatch.add(res)
+        else:
+            table.setdefault(hit, set()).add(res)
+    return table, nomatch, lowered
